@@ -190,7 +190,7 @@ PROPS["C12"] = {
                    "compared value for value, plus comparison with the independent encoder truth"),
     "level_note": "trusted: jxlgen Modular encoder/model (range tracking), comparison code in c12.rs",
     "technique": "runtime differential monitor: same stream through narrow(SIMD) and wide(scalar) decode paths + reference truth",
-    "quick": {"cases": 12000, "floor": 3000, "time_budget": 300},
+    "quick": {"cases": 6000, "floor": 1000, "time_budget": 240},
     "thorough": {"cases": 400000, "floor": 80000, "time_budget": 3000},
 }
 
